@@ -1,0 +1,21 @@
+//! Verification seam (compiled only with `--cfg yui_verif`): scheduling points that a model
+//! checker can intercept.  With nothing installed every call is a no-op.
+
+use std::sync::OnceLock;
+
+/// `label` names the program point; `ready`, when given, tells whether the lock acquisition
+/// that follows the point would succeed right now.
+pub type PointFn = fn(label: &'static str, ready: Option<&dyn Fn() -> bool>);
+
+static HOOK: OnceLock<PointFn> = OnceLock::new();
+
+pub fn install(f: PointFn) {
+    let _ = HOOK.set(f);
+}
+
+#[inline]
+pub fn point(label: &'static str, ready: Option<&dyn Fn() -> bool>) {
+    if let Some(f) = HOOK.get() {
+        f(label, ready)
+    }
+}
